@@ -98,6 +98,9 @@ func c08Alphabet() []c08Stmt {
 		{"lexer-error-before-a-multi-line-string", "g = 1 £ \"p\nq\"", "", true},
 		{"closer-of-the-outer-construct-while-an-inner-one-is-open", "{\n  [\n}", "", true},
 		{"lexer-error-then-closer-without-opener", "g = [1, £ }", "", true},
+		{"closer-without-opener-then-opener", "} if false {\n  g = g + 100\n}", "", true},
+		{"closer-without-opener-then-multi-line-string", "} \"abc\ndef\"", "", true},
+		{"closer-without-opener-after-a-multi-line-string-in-a-block", "{\n  sq = \"a\nb\" ]\n  g = g + 100\n}", "", true},
 		{"lexer-error-inside-open-literal", "g = [1,\n  2 £ 3,\n  4]", "", true},
 	}
 }
@@ -222,7 +225,7 @@ func init() {
 	core.Register(&core.Check{
 		ID:    "C08",
 		Level: "model_checking",
-		Rule: "explicit-state search over session histories: all sequences of length <= 2, and a tenth of those of length 3 (those that begin with every tenth statement of the alphabet; quick) / all of length <= 4 (thorough) over 44 statements (4 good ones; lexer, parser and unbalanced-input errors, a closer of the wrong kind inside an open array literal, a character outside the language on an inner line of a block and of an array literal, on a line with an opener inside a string or a comment, on the first line of a string that spans lines, a closer without opener on an inner line of a block, the closer of an outer construct while an inner one is open, a closer without opener after a lexer error, a NUL character inside a string literal; every runtime error class at top level, at call depth 3, in a for / while body, in a generator suspended after a yield, in a nested generator, in the second iterator of a zip, in a closure call, after deep recursion, with partial global effects; after writing output; in a loop body that stored a closure handed out by a suspended generator; a top-level return out of nested loops), each history followed by 15 observers (a call that reads twelve variables it never assigned, globals, calls, a summing loop, a generator composition, a zip over a failing generator, 300-deep recursion, an escaped closure, a further update). " +
+		Rule: "explicit-state search over session histories: all sequences of length <= 2, and a sixteenth of those of length 3 (those that begin with every sixteenth statement of the alphabet; quick) / all of length <= 4 (thorough) over 47 statements (4 good ones; lexer, parser and unbalanced-input errors, a closer of the wrong kind inside an open array literal, a character outside the language on an inner line of a block and of an array literal, on a line with an opener inside a string or a comment, on the first line of a string that spans lines, a closer without opener on an inner line of a block, the closer of an outer construct while an inner one is open, a closer without opener after a lexer error, before an opener or a multi-line string on the same line, after a multi-line string inside a block, a NUL character inside a string literal; every runtime error class at top level, at call depth 3, in a for / while body, in a generator suspended after a yield, in a nested generator, in the second iterator of a zip, in a closure call, after deep recursion, with partial global effects; after writing output; in a loop body that stored a closure handed out by a suspended generator; a top-level return out of nested loops), each history followed by 15 observers (a call that reads twelve variables it never assigned, globals, calls, a summing loop, a generator composition, a zip over a failing generator, 300-deep recursion, an escaped closure, a further update). " +
 			"Every history is replayed on a fresh real VM; oracle per transition: value/output/error of every statement equal the reference model's; through the hooks the machine is at rest after every statement (sp 0, no frames, no closure frames, no live contexts, ip at end of code); the observers answer exactly as in the failure-free twin session that performs only the documented global effects. states = distinct (reference global store, machine state) after a history; transitions = history extensions executed",
 		Assumptions: []string{"states are reported for coverage only; no pruning is done at these depths, every history is executed in full", "stdin is /dev/null, so read() is the read error case"},
 		Exec: func(payload string) (string, string) {
@@ -265,8 +268,8 @@ func c08Run(w *core.W) {
 	w.Family("histories")
 	n := len(c08Alphabet())
 	gen.Seqs(n, 0, maxLen, func(seq []int) bool {
-		if !w.Thorough() && len(seq) == 3 && seq[0]%10 != 0 {
-			return true // quick: all histories of length <= 2, and those of length 3 that start with every tenth statement
+		if !w.Thorough() && len(seq) == 3 && seq[0]%16 != 0 {
+			return true // quick: all histories of length <= 2, and those of length 3 that start with every sixteenth statement
 		}
 		b, _ := json.Marshal(c08Item{append([]int{}, seq...)})
 		if !w.Mine(string(b)) {
